@@ -198,7 +198,7 @@ def run(prog: Program, res: Result) -> None:
                 for tgt, val, stmt in assigns:
                     if tgt not in closure:
                         continue
-                    sn = next((x for x in cfg.nodes if x.node is stmt or (x.node is not None and any(y is stmt for y in ast.walk(x.node)))), None)
+                    sn = next((x for x in cfg.nodes if x.kind in ("stmt", "test") and x.node is not None and any(y is stmt for y in ast.walk(x.node))), None)
                     if sn is None:
                         continue
                     after_guard = any(sn.id in cfg.reachable(g) for g in guard_nodes)
